@@ -17,6 +17,65 @@ func NewFeature(key string, loc Location, props Props) Feature {
 	return Feature{key, loc, props}
 }
 
+func locationParts(loc Location) []Location {
+	if joined, ok := loc.(Joined); ok {
+		return joined
+	}
+	return []Location{loc}
+}
+
+// repairJoin joins b onto the end of a if the last part of a is a range whose
+// end meets the start of the first part of b. Unless force is given, the two
+// ends must be marked partial (i.e. they were produced by a cut).
+func repairJoin(a, b Location, force bool) (Location, bool) {
+	ca, aok := a.(Complemented)
+	cb, bok := b.(Complemented)
+	switch {
+	case aok && bok:
+		loc, ok := repairJoin(ca.Location, cb.Location, force)
+		return Complemented{loc}, ok
+	case aok || bok:
+		return nil, false
+	}
+
+	pa, pb := locationParts(a), locationParts(b)
+	v, vok := pa[len(pa)-1].(Ranged)
+	u, uok := pb[0].(Ranged)
+	if !vok || !uok || v.End != u.Start {
+		return nil, false
+	}
+	if !force && !(v.Partial.Partial3 && u.Partial.Partial5) {
+		return nil, false
+	}
+
+	parts := make([]Location, 0, len(pa)+len(pb))
+	parts = append(parts, pa...)
+	parts = append(parts, pb...)
+	return Join(parts...), true
+}
+
+// repairLocations merges each location into its predecessor where the two
+// are fragments of one location. Every element of the result corresponds to
+// one repaired feature.
+func repairLocations(locs []Location, force bool) []Location {
+	ret := make([]Location, 0, len(locs))
+	for _, loc := range locs {
+		if n := len(ret); n > 0 {
+			if joined, ok := repairJoin(ret[n-1], loc, force); ok {
+				ret[n-1] = joined
+				continue
+			}
+			// The parts of a join need not be in ascending order.
+			if joined, ok := repairJoin(loc, ret[n-1], force); ok {
+				ret[n-1] = joined
+				continue
+			}
+		}
+		ret = append(ret, loc)
+	}
+	return ret
+}
+
 // Repair attempts to reconstruct features by joining features with identical
 // feature keys and values which have adjacent locations.
 func Repair(ff []Feature) []Feature {
@@ -40,13 +99,10 @@ func Repair(ff []Feature) []Feature {
 			sort.Sort(Locations(locs))
 
 			force := ff[indices[0]].Key == "source"
-			list := LocationList{}
-			for _, loc := range locs {
-				list.Push(loc, force)
+			for n := len(locs) + 1; len(locs) < n; {
+				n = len(locs)
+				locs = repairLocations(locs, force)
 			}
-
-			// DISCUSS: Should we join these locations?
-			locs = list.Slice()
 
 			// Some locations were merged.
 			if len(locs) < len(indices) {
